@@ -24,7 +24,7 @@ ASSUMPTIONS = [
 ]
 TIMEOUT = {"quick": 900, "thorough": 3000}
 MIN_COUNTERS = {"quick": {"obs_rows_checked": 1200, "param_samples_checked": 900, "multi_batches_checked": 50},
-                "thorough": {"obs_rows_checked": 20000, "param_samples_checked": 20000, "multi_batches_checked": 500}}
+                "thorough": {"obs_rows_checked": 12000, "param_samples_checked": 8000, "multi_batches_checked": 400}}
 
 
 def gen_cases(tier, seed):
@@ -38,7 +38,7 @@ def gen_cases(tier, seed):
                           nparams=int(rng.integers(0, 4)), pshape=int(rng.integers(2)),
                           key=seed * 100 + k, eager=(k % 5 == 0), cost=1.0))
     combos = list(itertools.product(("range", "table1", "table2", "both1", "both2"), repeat=2))
-    for k, (ca, cb) in enumerate(combos):
+    for k, (ca, cb) in enumerate(combos * (1 if q else 8)):
         n = int(rng.integers(1, 25))
         b = int(rng.integers(1, n + 1))
         cases.append(dict(kind="param", n=n, b=b, spec={"ka": ca, "kb": cb}, method=["uniform", "grid"][k % 3 == 0],
